@@ -6,9 +6,9 @@
    equality follows because the run depends on the loaded state only (C13 reduction).
    Only statements, each closed by [exact lemma], and Print Assumptions. *)
 From Coq Require Import ZArith List Bool Ascii String.
-From Hermes Require Import Num DateModel CropParamModel CropParamProofs OverrideModel OverrideProofs C13Proofs C13Corr C18Proofs.
+From Hermes Require Import Num DateModel CropParamModel CropParamProofs OverrideModel OverrideProofs CropSamples C13Corr C18Proofs.
 Import ListNotations.
-Open Scope Z_scope.
+Local Open Scope Z_scope.
 
 (* YAML crop file: loading the edited record = applying the override to the loaded state, for ANY
    set of overrides (base, per-stage, per-organ) that passes the validation, any record the reader
@@ -70,8 +70,16 @@ Example C18_nonvacuous :
     state_of_yaml false r C13Corr.zero_state = Some s /\
     parse_overrides [(lstr_of "c_TSUM_2", lstr_of "300"); (lstr_of "c_PRO_1_2", lstr_of "0.25")] = Some o /\
     valid o (NRKOM s) (NRENTW s) = true /\ tendsum (apply false o s) <> tendsum s /\
-    parse_overrides [(lstr_of "c_TSUM_3", lstr_of "300")] = Some o' /\ valid o' (NRKOM s) (NRENTW s) = false.
+    parse_overrides (T:=PrimFloat.float) [(lstr_of "c_TSUM_3", lstr_of "300")] = Some o' /\ valid o' (NRKOM s) (NRENTW s) = false.
 Proof. exact sample_override. Qed.
+
+(* F29: TSUM = 0 is out of range and takes a valid companion entry down with it; 1e-9 stays valid *)
+Example C18_tsum_zero_rejected :
+  exists r s o o', convert (T:=PrimFloat.float) sample_lines = Some r /\ state_of_yaml false r C13Corr.zero_state = Some s /\
+    parse_overrides [(lstr_of "c_TSUM_1", lstr_of "0"); (lstr_of "c_MAXAMAX", lstr_of "30")] = Some o /\
+    valid o (NRKOM s) (NRENTW s) = false /\ apply false o s = s /\
+    parse_overrides (T:=PrimFloat.float) [(lstr_of "c_TSUM_1", lstr_of "0.000000001")] = Some o' /\ valid o' (NRKOM s) (NRENTW s) = true.
+Proof. exact tsum_zero_rejected. Qed.
 
 Print Assumptions C18_override_commutes.
 Print Assumptions C18_override_commutes_classic.
